@@ -28,6 +28,7 @@ import (
 	"net/url"
 	"strings"
 	"sync"
+	"sync/atomic"
 	"time"
 
 	jose "github.com/go-jose/go-jose/v3"
@@ -117,6 +118,7 @@ type vfIdP struct {
 	atIdent  map[string]vfIdentity
 	famAT    map[string]string // refresh-token family -> access token currently live for it
 	ctr      int
+	openConns int64
 
 	cfg vfIdPCfg
 }
@@ -151,10 +153,22 @@ func vfNewIdP() *vfIdP {
 		deadAT: map[string]bool{}, atIdent: map[string]vfIdentity{}, famAT: map[string]string{}, cfg: vfIdPCfg{IDTokenTTL: time.Hour, ClientID: "cid"}}
 	mux := http.NewServeMux()
 	mux.HandleFunc("/", i.serve)
-	i.Srv = httptest.NewServer(mux)
+	i.Srv = httptest.NewUnstartedServer(mux)
+	i.Srv.Config.ConnState = func(c net.Conn, st http.ConnState) { // open-connection gauge (leak monitor for C14)
+		switch st {
+		case http.StateNew:
+			atomic.AddInt64(&i.openConns, 1)
+		case http.StateClosed, http.StateHijacked:
+			atomic.AddInt64(&i.openConns, -1)
+		}
+	}
+	i.Srv.Start()
 	i.Issuer = i.Srv.URL
 	return i
 }
+
+// OpenConns: connections currently open at the IdP's server (accepted and not yet closed).
+func (i *vfIdP) OpenConns() int64 { return atomic.LoadInt64(&i.openConns) }
 
 func (i *vfIdP) Close() { i.Srv.CloseClientConnections(); i.Srv.Close() }
 
